@@ -1,4 +1,4 @@
 SPECIFICATION Spec
-CONSTANTS NSet = {100, 500, 5000}  CSet = {2, 5}  Kinds = {"default", "user"}  Reps = {1}  SharedKw = TRUE  KFixAll = TRUE  Dev = "none"
+CONSTANTS NSet = {100, 500, 5000}  CSet = {2, 5}  Kinds = {"default", "user", "far"}  Reps = {1}  SharedKw = TRUE  KFixAll = TRUE  Dev = "none"
 CHECK_DEADLOCK FALSE
 INVARIANT HistoryIndependent
